@@ -484,6 +484,10 @@ def run():
     kch5, kerr5 = hashtr.run()
     kerr += kerr5
     changed += kch5
+    import floattr
+    kch6, kerr6 = floattr.run()
+    kerr += kerr6
+    changed += kch6
     kerr += [f"hashes.py section {k}: {v}" for k, v in section_errors.items()]
     return {"changed": changed, "fingerprints": fingerprints(), "kernel_errors": kerr, "section_errors": section_errors}
 
